@@ -51,6 +51,10 @@ class Contract:
     def hooks(self, ctx):
         return {}
 
+    def ensures_raise(self, ctx, etype):
+        """postcondition of exceptional exits (frame conditions that must hold when the function raises)"""
+        return []
+
     def allow_vacuous(self, st):
         """structures on which the function is expected to raise on every path"""
         return False
@@ -105,7 +109,7 @@ def locate_for(contract, mutant=None):
     if mutant is not None:
         label, old, new = mutant
         if loc.source.count(old) < 1:
-            raise LookupError("mutant %r: pattern not found in %s" % (label, contract.name))
+            raise core.FunctionMissing("mutant %r: pattern not found in %s" % (label, contract.name))
         src = loc.source.replace(old, new, 1)
         import textwrap
 
@@ -143,7 +147,7 @@ def run_structure(contract, label, st, mutant=None, stop_on_refute=False):
         try:
             result = f(*ctx.args, **ctx.kwargs)
         except Declined as d:
-            return ("declined", ctx, "%s %s" % (d.etype, d.msg), d.etype)
+            return ("declined", ctx, "%s %s" % (d.etype, d.msg), d.etype, contract.ensures_raise(ctx, d.etype))
         post = contract.ensures(ctx, result)
         return ("returned", ctx, result, post)
 
@@ -164,7 +168,24 @@ def run_structure(contract, label, st, mutant=None, stop_on_refute=False):
         if pr.value[0] == "declined":
             counts["returned"] -= 1
             counts["declined"] += 1
-            _, ctx, detail, etype = pr.value
+            _, ctx, detail, etype, post_raise = pr.value
+            for clause, f in post_raise:
+                s = z3.Solver()
+                s.set("timeout", contract.timeout_ms)
+                s.add(*pr.pc)
+                s.add(z3.Not(_formula(f)))
+                t = time.time()
+                r = s.check()
+                solver_s += time.time() - t
+                queries += 1
+                if r == z3.unsat:
+                    backends["z3"] += 1
+                    setc(clause, "discharged")
+                elif r == z3.sat:
+                    m = s.model()
+                    setc(clause, "refuted", "on the path raising %s" % detail, model_to_dict(m), _safe_replay(contract, ctx, m, st, clause, pr))
+                else:
+                    setc(clause, "undecided", "solver unknown")
             allowed = contract.may_raise(ctx, etype)
             if allowed is not True:
                 # obligation: the function raises only where the contract allows it
